@@ -12,6 +12,7 @@ import os
 import random
 import re
 import shutil
+import signal
 import subprocess
 import time
 from concurrent.futures import ThreadPoolExecutor
@@ -121,7 +122,7 @@ def run_expand(ctx):
     rnd = random.Random(ctx.seed * 7919 + 11)
     q = ctx.quick()
     t0 = time.time()
-    n = 7 if q else 9
+    n = 6 if q else 9
     groups = []
     for a1, a2 in _groups(rnd, q):
         pool = _pool(rnd, n, a2[0] != -2)
@@ -221,15 +222,33 @@ def _apalache_classify(job, rc, text, wall):
     return status, ("rc=%s %.1fs %s" % (rc, wall, tail)).strip()
 
 
+def _apalache_spawn(cmd, d):
+    """Own session / process group, so that the wrapper script, the JVM and z3 can be killed together."""
+    return subprocess.Popen(cmd, cwd=d, env=_apalache_env(), stdout=subprocess.PIPE, stderr=subprocess.STDOUT, text=True,
+                            start_new_session=True)
+
+
+def _apalache_wait(p, seconds):
+    """-> (rc, output); rc 124 when the run did not end in time (the whole group is killed)."""
+    try:
+        text, _ = p.communicate(timeout=max(1.0, seconds))
+        return p.returncode, text or ""
+    except subprocess.TimeoutExpired:
+        try:
+            os.killpg(p.pid, signal.SIGKILL)
+        except OSError:
+            pass
+        try:
+            text = p.communicate(timeout=10)[0] or ""
+        except Exception:
+            text = ""
+        return 124, text
+
+
 def _apalache_run(ctx, job, n):
     cmd, d = _apalache_cmd(ctx, job, n)
     t0 = time.time()
-    try:
-        p = subprocess.run(cmd, cwd=d, env=_apalache_env(), stdout=subprocess.PIPE, stderr=subprocess.STDOUT, text=True,
-                           timeout=job["timeout"] + 30)
-        rc, text = p.returncode, p.stdout
-    except subprocess.TimeoutExpired as e:
-        rc, text = 124, (e.stdout or "") if isinstance(e.stdout, str) else ""
+    rc, text = _apalache_wait(_apalache_spawn(cmd, d), job["timeout"] + 20)
     wall = time.time() - t0
     status, detail = _apalache_classify(job, rc, text, wall)
     return dict(job, status=status, detail=detail, wall=wall)
@@ -241,10 +260,9 @@ def _apalache_start_quick(ctx):
     if not ctx.quick() or shutil.which(APALACHE) is None or getattr(ctx, "_ext_apalache", None) is not None:
         return
     lev = random.Random(ctx.seed * 31 + 5).randrange(0, 31)
-    job = _apalache_job(ctx, "step+one-level laws at level %d" % lev, lev, lev, "IndInit", "IndInv,OneLevelLaws", 1, timeout=40)
+    job = _apalache_job(ctx, "step+one-level laws at level %d" % lev, lev, lev, "IndInit", "IndInv,OneLevelLaws", 1, timeout=25)
     cmd, d = _apalache_cmd(ctx, job, 0)
-    p = subprocess.Popen(cmd, cwd=d, env=_apalache_env(), stdout=subprocess.PIPE, stderr=subprocess.STDOUT, text=True)
-    ctx._ext_apalache = (job, p, time.time())
+    ctx._ext_apalache = (job, _apalache_spawn(cmd, d), time.time())
 
 
 def _apalache_plan(ctx):
@@ -308,15 +326,10 @@ def run_apalache(ctx):
     if ctx.quick():
         _apalache_start_quick(ctx)
         st = getattr(ctx, "_ext_apalache", None)
-        if st is None:
+        if not st:
             return
         job, p, started = st
-        try:
-            text, _ = p.communicate(timeout=max(1.0, 45 - (time.time() - started)))
-            rc = p.returncode
-        except subprocess.TimeoutExpired:
-            p.kill()
-            text, rc = (p.communicate()[0] or ""), 124
+        rc, text = _apalache_wait(p, 28 - (time.time() - started))
         status, detail = _apalache_classify(job, rc, text, time.time() - started)
         ctx._ext_apalache = None
         _apalache_report(ctx, [dict(job, status=status, detail=detail)], 1, started)
